@@ -24,7 +24,7 @@ func run(c *hk.Ctx) {
 	th := c.Thorough()
 	nParams, nScript, perEnv, perRaw := 1500, 400, 60, 120
 	if th {
-		nParams, nScript, perEnv, perRaw = 4000, 1200, 120, 300
+		nParams, nScript, perEnv, perRaw = 8000, 3000, 300, 600
 	}
 	runParams(c, nParams)
 	runScripts(c, nScript)
@@ -40,9 +40,11 @@ func run(c *hk.Ctx) {
 	}
 	all := []string{mProgress, mMessage, "verif/custom/a", "verif/custom/b", "x", "notifications/tools/list_changed"}
 	profiles := []struct {
-		name    string
-		methods []string
-	}{{"all", all}, {"some", []string{mProgress, "verif/custom/a"}}, {"none", nil}}
+		name       string
+		methods    []string
+		unregister []string
+	}{{"all", all, nil}, {"some", []string{mProgress, "verif/custom/a"}, nil}, {"none", nil, nil},
+		{"some-after-unregister", []string{mMessage, "x", "verif/custom/b"}, []string{mProgress, "verif/custom/a", "notifications/tools/list_changed"}}}
 	envs := []hk.SrvCfg{
 		{Mode: "stateful", Get: true, PostSSE: true},
 		{Mode: "stateless", Get: false, PostSSE: true},
@@ -52,7 +54,7 @@ func run(c *hk.Ctx) {
 	}
 	for ei, cfg := range envs {
 		for pi, pr := range profiles {
-			if !cfg.PostSSE && pr.name == "some" {
+			if (!cfg.PostSSE && (pr.name == "some" || pr.name == "some-after-unregister")) || (pr.name == "some-after-unregister" && ei > 1) {
 				continue
 			}
 			conc := 4
@@ -63,7 +65,7 @@ func run(c *hk.Ctx) {
 			if !cfg.PostSSE {
 				n = perEnv / 2
 			}
-			runEnv(c, cfg, pr.name, pr.methods, mkPlans(n, 200), conc)
+			runEnv(c, cfg, pr.name, pr.methods, pr.unregister, mkPlans(n, 200), conc)
 		}
 	}
 	// raw peers: many short bursts without pauses (several events within one millisecond) and some long ones
